@@ -181,7 +181,10 @@ pub fn run_case(c: &Case) -> String {
             let su_ = sp.build();
             let a: Vec<u64> = (0..=40u64).map(|x| su(su_.provided_service(d(x)))).collect();
             let b: Vec<u64> = (0..=20u64).map(|x| du(su_.service_time(s(x)))).collect();
-            format!("{:?}/{:?}", a, b)
+            // far queries whose exact answers still fit the value range (nanosecond time bases)
+            let fa: Vec<u64> = [1_000_000_007u64, 1 << 40, (1 << 62) + 3].iter().map(|x| su(su_.provided_service(d(*x)))).collect();
+            let fb: Vec<u64> = [1_000_000_007u64, 1 << 40, (1 << 56) + 3].iter().map(|x| du(su_.service_time(s(*x)))).collect();
+            format!("{:?}/{:?}/{:?}/{:?}", a, b, fa, fb)
         }
     }
 }
@@ -227,6 +230,32 @@ pub fn stream(name: &str, quick: bool) -> Vec<Case> {
                     }
                 }
             }
+            // "no threshold": divergence limits at the top of the value range, on systems whose
+            // utilisation is below 1 (the analyses converge whatever the limit)
+            let menu: Vec<(u64, u64, u64)> = vec![(3, 0, 1), (4, 5, 1), (7, 2, 2), (10, 12, 2), (6, 13, 1)];
+            for ana in ALL_ANA {
+                for a in &menu {
+                    for b in &menu {
+                        if (a.2 as f64) / (a.0 as f64) + (b.2 as f64) / (b.0 as f64) > 0.9 {
+                            continue;
+                        }
+                        for tua in 0..2 {
+                            for limit in [u64::MAX, u64::MAX - 1, u64::MAX - 7, 1u64 << 63] {
+                                v.push(Case::Uni(UniCase {
+                                    ana,
+                                    tasks: vec![
+                                        TaskSpec { arr: ArrSpec::Sporadic { t: a.0, j: a.1 }, cost: CostSpec::Scalar(a.2), deadline: 9, last_seg: 1, max_seg: a.2 },
+                                        TaskSpec { arr: ArrSpec::Sporadic { t: b.0, j: b.1 }, cost: CostSpec::Scalar(b.2), deadline: 5, last_seg: b.2, max_seg: 1 },
+                                    ],
+                                    tua,
+                                    blocking: if ana.is_fp() && ana != Ana::FpP { 1 } else { 0 },
+                                    limit,
+                                }));
+                            }
+                        }
+                    }
+                }
+            }
             v
         }
         "ros" => {
@@ -260,6 +289,32 @@ pub fn stream(name: &str, quick: bool) -> Vec<Case> {
                     }
                 }
             }
+            // divergence limits at the top of the value range on lightly loaded executors
+            for sup in [SupplySpec::Dedicated, SupplySpec::Periodic { q: 2, p: 3 }] {
+                for limit in [u64::MAX, u64::MAX - 1, u64::MAX - 7, 1u64 << 63] {
+                    let (aa, bb): (AC, AC) = ((ArrSpec::Sporadic { t: 9, j: 11 }, CostSpec::Scalar(1)), (ArrSpec::Sporadic { t: 7, j: 3 }, CostSpec::Scalar(2)));
+                    v.push(Case::Ros(RosCase::EventSource { supply: sup.clone(), demand: vec![aa.clone(), bb.clone()], limit }));
+                    v.push(Case::Ros(RosCase::Timer { supply: sup.clone(), own: aa.clone(), hp: vec![bb.clone()], blocking: 1, limit }));
+                    v.push(Case::Ros(RosCase::Pp { supply: sup.clone(), own: aa.clone(), others: vec![bb.clone()], limit }));
+                    v.push(Case::Ros(RosCase::Chain { supply: sup.clone(), src: aa.0.clone(), costs: vec![CostSpec::Scalar(1), CostSpec::Scalar(1)], others: vec![bb.clone()], limit }));
+                    for bw in [false, true] {
+                        for (k0, k1) in [(Kind::Timer, Kind::PolledUnknown), (Kind::Polled(1), Kind::Polled(2)), (Kind::PolledUnknown, Kind::Timer)] {
+                            for sc in [vec![0usize], vec![1, 0]] {
+                                v.push(Case::Ros(RosCase::Sub {
+                                    bw,
+                                    supply: sup.clone(),
+                                    workload: vec![
+                                        CbCase { arr: aa.0.clone(), cost: CostSpec::Scalar(1), kind: k0, assumed: 9 },
+                                        CbCase { arr: bb.0.clone(), cost: CostSpec::Scalar(2), kind: k1, assumed: 12 },
+                                    ],
+                                    subchain: sc,
+                                    limit,
+                                }));
+                            }
+                        }
+                    }
+                }
+            }
             v
         }
         "fp" => {
@@ -267,8 +322,20 @@ pub fn stream(name: &str, quick: bool) -> Vec<Case> {
             let mut v = vec![];
             for sup in c08::supplies(pmax) {
                 for t in c08::monotone_tables(n, m) {
-                    for limit in [0u64, 1, 3, 8, 30] {
+                    for limit in [0u64, 1, 3, 8, 30, u64::MAX, u64::MAX - 2] {
                         v.push(Case::Fp(c08::FpCase { supply: sup.clone(), table: t.clone(), offset: 0, limit }));
+                    }
+                    // non-zero offsets inside the busy window (A > 0 needs sbf(A-1) < w(1))
+                    {
+                        use response_time_analysis::supply::SupplyBound;
+                        let sb = sup.build();
+                        for a in [1u64, 2, 5] {
+                            if su(sb.provided_service(d(a - 1))) < t[0] {
+                                for limit in [3u64, 30, u64::MAX, u64::MAX - a, u64::MAX - a + 1] {
+                                    v.push(Case::Fp(c08::FpCase { supply: sup.clone(), table: t.clone(), offset: a, limit }));
+                                }
+                            }
+                        }
                     }
                 }
             }
